@@ -93,7 +93,9 @@ impl Method for SWMA {
 	#[inline]
 	fn next(&mut self, &value: &Self::Input) -> Self::Output {
 		if self.right_window.is_empty() {
-			return value;
+			// length 1: the window is the value itself (`invert_sum` is 1)
+			self.numerator = value;
+			return self.peek();
 		}
 
 		let right_prev_value = self.right_window.push(value);
